@@ -875,6 +875,19 @@ def memoised_application(call):
                         isinstance(a.value, ast.Name) and \
                         a.value.id == 'self':
                     return True
+        if isinstance(q, ast.For) and n is not q.iter:
+            # for x in todo[len(self.<memo>):..]: what is still missing
+            for a in ast.walk(q.iter):
+                if isinstance(a, ast.Call) and isinstance(
+                        a.func, ast.Name) and a.func.id == 'len' and \
+                        a.args and isinstance(
+                            a.args[0], ast.Attribute) and \
+                        a.args[0].attr == memo and isinstance(
+                            a.args[0].value, ast.Name) and \
+                        a.args[0].value.id == 'self' and isinstance(
+                            getattr(a, '_parent', None), ast.Slice) and \
+                        a._parent.lower is a:
+                    return True
         n = q
     return False
 
